@@ -35,20 +35,21 @@ CONSTANTS Threads,      \* API callers (positive integers)
           Watcher,      \* BOOLEAN: the receiver has a libp2p host and a topic, so a watcher goroutine runs
           MaxMsgs,      \* pubsub messages that may arrive
           MaxRestarts,  \* spurious subscription errors (restart path of the watcher)
-          Resend        \* BOOLEAN: direct announcements are re-published on the topic (and come back to the watcher)
+          Resend,       \* BOOLEAN: direct announcements are re-published on the topic (and come back to the watcher)
+          Cancels       \* BOOLEAN: the context of a Direct / Next call may be cancelled while the call is under way
 W == 0 - 1              \* the watcher's identity as a mutex holder
 Ops == {"close", "directOk", "directNo", "next", "uncache"}
 
-VARIABLES pcs, op, ncalls, mutex, closed, done, out, res, closeCalled, closeReturned, startedAfterClose,
+VARIABLES pcs, op, ncalls, mutex, closed, done, out, res, closeCalled, closeReturned, startedAfterClose, cancelled,
           wpc, msgs, published, restarts, subCancelled, watchCancelled, watchDone
-vars == <<pcs, op, ncalls, mutex, closed, done, out, res, closeCalled, closeReturned, startedAfterClose,
+vars == <<pcs, op, ncalls, mutex, closed, done, out, res, closeCalled, closeReturned, startedAfterClose, cancelled,
           wpc, msgs, published, restarts, subCancelled, watchCancelled, watchDone>>
 wvars == <<wpc, msgs, published, restarts>>
 
 Init == /\ pcs = [t \in Threads |-> "idle"] /\ op = [t \in Threads |-> "none"] /\ ncalls = [t \in Threads |-> 0]
         /\ mutex = 0 /\ closed = FALSE /\ done = FALSE /\ out = 0
         /\ res = [t \in Threads |-> <<>>] /\ closeCalled = FALSE /\ closeReturned = FALSE
-        /\ startedAfterClose = [t \in Threads |-> FALSE]
+        /\ startedAfterClose = [t \in Threads |-> FALSE] /\ cancelled = [t \in Threads |-> FALSE]
         /\ wpc = (IF Watcher THEN "loop" ELSE "none") /\ msgs = 0 /\ published = 0 /\ restarts = 0
         /\ subCancelled = FALSE /\ watchCancelled = FALSE /\ watchDone = FALSE
 
@@ -63,12 +64,18 @@ Goto(t, l) == pcs' = [pcs EXCEPT ![t] = l] /\ UNCHANGED <<res, closeReturned>>
 Start(t, o) == /\ pcs[t] = "idle" /\ ncalls[t] < MaxCalls
                /\ op' = [op EXCEPT ![t] = o] /\ ncalls' = [ncalls EXCEPT ![t] = @ + 1]
                /\ startedAfterClose' = [startedAfterClose EXCEPT ![t] = closeReturned]
+               /\ cancelled' = [cancelled EXCEPT ![t] = FALSE]
                /\ closeCalled' = (closeCalled \/ o = "close")
                /\ Goto(t, CASE o = "close" -> "c0" [] o = "directOk" -> "d1" [] o = "directNo" -> "d0"
                             [] o = "next" -> "n0" [] OTHER -> "u0")
                /\ UNCHANGED <<mutex, closed, done, out, wvars, subCancelled, watchCancelled, watchDone>>
 
-Same == UNCHANGED <<op, ncalls, closeCalled, startedAfterClose>>
+Same == UNCHANGED <<op, ncalls, closeCalled, startedAfterClose, cancelled>>
+(* the caller cancels the context of its Direct / Next call (environment) *)
+Cancel(t) == /\ Cancels /\ pcs[t] # "idle" /\ op[t] \in {"directOk", "next"} /\ ~cancelled[t]
+             /\ cancelled' = [cancelled EXCEPT ![t] = TRUE]
+             /\ UNCHANGED <<pcs, op, ncalls, mutex, closed, done, out, res, closeCalled, closeReturned, startedAfterClose,
+                            wpc, msgs, published, restarts, subCancelled, watchCancelled, watchDone>>
 Lock(t, from, to) == /\ pcs[t] = from /\ mutex = 0 /\ mutex' = t /\ Goto(t, to) /\ Same
                      /\ UNCHANGED <<closed, done, out, wvars, subCancelled, watchCancelled, watchDone>>
 
@@ -111,6 +118,7 @@ D4(t) == /\ pcs[t] = "d4" /\ Same
          /\ \/ out = 0 /\ out' = 1 /\ Return(t, "nil")                                                    \* into the buffer
             \/ (\E r \in Receivers : Ret(t, "nil", [pcs EXCEPT ![r] = "ngot"])) /\ UNCHANGED out             \* straight to a receiver
             \/ done /\ Return(t, "closed") /\ UNCHANGED out
+            \/ cancelled[t] /\ Return(t, "cancelled") /\ UNCHANGED out
          /\ UNCHANGED <<mutex, closed, done, wvars, subCancelled, watchCancelled, watchDone>>
 (* ---- Next, UncacheCid ---- *)
 N0(t) == /\ pcs[t] = "n0" /\ Same
@@ -118,6 +126,7 @@ N0(t) == /\ pcs[t] = "n0" /\ Same
             \/ (\E x \in SendersT : Ret(t, "msg", [pcs EXCEPT ![x] = "dsent"])) /\ UNCHANGED <<out, wpc>>     \* a sender's message follows
             \/ wpc = "sel" /\ wpc' = "sent" /\ Return(t, "msg") /\ UNCHANGED out                              \* ... the watcher's
             \/ done /\ Return(t, "closed") /\ UNCHANGED <<out, wpc>>
+            \/ cancelled[t] /\ Return(t, "cancelled") /\ UNCHANGED <<out, wpc>>
          /\ UNCHANGED <<mutex, closed, done, msgs, published, restarts, subCancelled, watchCancelled, watchDone>>
 NGot(t) == /\ pcs[t] = "ngot" /\ Return(t, "msg") /\ Same
            /\ UNCHANGED <<mutex, closed, done, out, wvars, subCancelled, watchCancelled, watchDone>>
@@ -132,7 +141,7 @@ Step(t) == \/ \E o \in Ops : Start(t, o)
            \/ N0(t) \/ NGot(t) \/ Lock(t, "u0", "u1") \/ U1(t) \/ URet(t)
 
 (* ---- the pubsub watcher ---- *)
-TU == UNCHANGED <<pcs, op, ncalls, res, closeCalled, closeReturned, startedAfterClose>>
+TU == UNCHANGED <<pcs, op, ncalls, res, closeCalled, closeReturned, startedAfterClose, cancelled>>
 WGoto(l) == wpc' = l
 (* a message is published on the topic (environment) *)
 Publish == /\ Watcher /\ ~Resend /\ published < MaxMsgs /\ published' = published + 1 /\ msgs' = msgs + 1 /\ TU
@@ -152,7 +161,7 @@ WCheck == /\ wpc = "check" /\ mutex' = 0 /\ TU
           /\ UNCHANGED <<closed, done, out, msgs, published, restarts, subCancelled, watchCancelled, watchDone>>
 WSend == /\ wpc = "send" /\ WGoto("sel") /\ TU
          /\ UNCHANGED <<mutex, closed, done, out, msgs, published, restarts, subCancelled, watchCancelled, watchDone>>
-WSel == /\ wpc = "sel" /\ UNCHANGED <<op, ncalls, res, closeCalled, closeReturned, startedAfterClose>>
+WSel == /\ wpc = "sel" /\ UNCHANGED <<op, ncalls, res, closeCalled, closeReturned, startedAfterClose, cancelled>>
         /\ \/ out = 0 /\ out' = 1 /\ WGoto("next") /\ UNCHANGED <<pcs, watchDone>>
            \/ (\E r \in Receivers : pcs' = [pcs EXCEPT ![r] = "ngot"]) /\ WGoto("next") /\ UNCHANGED <<out, watchDone>>
            \/ (done \/ watchCancelled) /\ WGoto("done") /\ watchDone' = TRUE /\ UNCHANGED <<out, pcs>>
@@ -166,7 +175,7 @@ WRestart == /\ wpc = "r2" /\ mutex' = 0 /\ subCancelled' = FALSE /\ WGoto("loop"
 WStep == WLoop \/ WMsg \/ WNextExit \/ WErr \/ WLock("got", "check") \/ WCheck \/ WSend \/ WSel
          \/ WClosedExit \/ WLock("r1", "r2") \/ WRestart
 
-Next == (\E t \in Threads : Step(t)) \/ WStep \/ Publish
+Next == (\E t \in Threads : Step(t)) \/ WStep \/ Publish \/ (\E t \in Threads : Cancel(t))     \* no fairness for the environment
 Spec == Init /\ [][Next]_vars /\ (\A t \in Threads : WF_vars(Step(t))) /\ WF_vars(WStep)
 
 AllDone == /\ \A t \in Threads : pcs[t] = "idle" /\ ncalls[t] = MaxCalls
@@ -183,5 +192,6 @@ ResultsOK ==
        /\ e.op = "directNo" => e.r = "nil"
        /\ (e.op = "directOk" /\ e.late) => e.r = "closed"
        /\ (e.op = "next" /\ e.r = "closed") => done
+       /\ e.r = "cancelled" => (Cancels /\ e.op \in {"directOk", "next"})
        /\ e.op = "uncache" => e.r = "nil"
 =============================================================================
